@@ -141,6 +141,10 @@ func (c *Ctx) strLen(st *State, s StrV) *Term {
 			return c.idx(1)
 		case "ite":
 			return Ite(s.SArgs[0].(*Term), c.strLen(st, s.SArgs[1].(StrV)), c.strLen(st, s.SArgs[2].(StrV)))
+		case "runesstr":
+			l := App("strlen.runesstr."+c.modeTag(), c.IntSort(), s.SArgs[0].(*Term), s.SArgs[1].(*Term), s.SArgs[2].(*Term))
+			st.assume(Cmp(">=", l, s.SArgs[2].(*Term), true))
+			return l
 		case "itoa", "fmt", "runestr":
 			// the length of a rendered number / formatted piece is an uninterpreted function of its arguments
 			var ts []*Term
